@@ -20438,6 +20438,13 @@ impl<
 				}
 			});
 
+		// Verification switch (H12): lets the external harness take the reconstruct-from-monitors
+		// reload path, which is otherwise reachable under `cfg(test)` only. Off by default.
+		#[cfg(all(not(test), feature = "verif_hooks"))]
+		let reconstruct_manager_from_monitors = reconstruct_manager_from_monitors
+			|| crate::ln::verif_hooks::RELOAD_RECONSTRUCT_FROM_MONITORS
+				.load(core::sync::atomic::Ordering::Relaxed);
+
 		// If there's any preimages for forwarded HTLCs hanging around in ChannelMonitors we
 		// should ensure we try them again on the inbound edge. We put them here and do so after we
 		// have a fully-constructed `ChannelManager` at the end.
